@@ -2,7 +2,7 @@ import os, json
 from . import core
 from .core import log
 
-RULE = ("every history of <= MaxN mutating calls (MaxN = 3 quick, 4 thorough) over keys {a,b,c} on toml_edit::Table, InlineTable, "
+RULE = ("every history of <= 3 mutating calls (maps; 4 for sequences; the thorough tier adds a sampled level 4 / 5) over keys {a,b,c} on toml_edit::Table, InlineTable, "
         "their TableLike views, Array, ArrayOfTables and toml::Map in both its sorted and insertion-ordered builds, enumerated "
         "by TLC on the Containers state machine (ordered-map laws checked as invariants and action properties); each history is "
         "replayed through the real API recording every return value and the full observation (len, is_empty, iteration, get and "
@@ -15,6 +15,7 @@ CONSTANTS
   MaxN = %d
   Keys = {"a", "b", "c"}
   EMIT = TRUE
+  SAMPLE = %d
 INVARIANT Laws
 INVARIANT Emit
 PROPERTY RemovalKeepsOrder
@@ -42,21 +43,24 @@ def known_for(ctx, m):
     return None
 
 
-def gen_histories(ctx, kind, maxn):
+def gen_histories(ctx, kind, maxn, sample=1):
     hs = {}
     def on(o):
         hs[json.dumps(o["ops"], sort_keys=True)] = o
-    r = ctx.tlc("MCContainers", CFG % (kind, maxn), tag="cont-" + kind, workers=6, timeout=7200, on_json=on)
+    r = ctx.tlc("MCContainers", CFG % (kind, maxn, sample), tag="cont-%s-n%d" % (kind, maxn), workers=6, timeout=7200, on_json=on)
     log("MCContainers %s: %d distinct states, %d distinct histories, %.1fs" % (kind, r.distinct, len(hs), r.wall))
     ctx.extra.setdefault("container_models", []).append({"kind": kind, "MaxN": maxn, "distinct_states": r.distinct, "histories": len(hs)})
     return list(hs.values())
 
 
 def run(ctx):
-    maxn = 3 if ctx.quick else 4
     builds = {"po": ctx.build(features=("preserve_order",)), "plain": ctx.build(features=())}
     for kind in KINDS:
-        hists = gen_histories(ctx, kind, maxn if kind not in ("array", "aot") else maxn + 1)
+        seqk = kind in ("array", "aot")
+        hists = gen_histories(ctx, kind, 4 if seqk else 3)
+        if not ctx.quick:
+            # one level deeper, one in SAMPLE of the last operations (the full level has millions of histories)
+            hists += gen_histories(ctx, kind, 5 if seqk else 4, 7 if seqk else 23)
         h = builds["plain"] if kind == "map_sorted" else builds["po"]
         hp = ctx.path("hist-%s.ndjson" % kind)
         core.write_ndjson(hp, hists)
